@@ -187,6 +187,7 @@ class Program:
                 c.bases = [self.resolve_class(m, b) or self._base_name(m, b) for b in c.node.bases]
         self.class_hooks = {}           # class -> why its class-creation hook is not followed (methods are then undecided)
         self._apply_class_hooks()
+        self._dynamic_features()
         self._summaries = {}
         self.record_classes = {}        # component names -> record classes constructed with them
         self.owned = {}                 # (class, field) -> private collaborator class constructed into that field
@@ -272,6 +273,63 @@ class Program:
                                 x.lineno = x.end_lineno = line
                         d._module = m               # names in the hook are names of the module that defines it
                         fn.decorator_list = [d] + list(fn.decorator_list)
+
+    HARMLESS_CLASS_DECORATORS = {"dataclass", "dataclasses.dataclass", "functools.total_ordering", "total_ordering",
+                                 "typing.final", "final", "typing.runtime_checkable", "runtime_checkable"}
+
+    def _dynamic_features(self):
+        """Language features that change what attribute access, instance creation or a class body mean and that the
+        engine does not follow: a class using one (and its subclasses) is not analysed -- its methods are undecided
+        rather than read as if the feature were not there."""
+        def poison(K, why):
+            self.class_hooks.setdefault(K.qual, why)
+        for m in self.modules.values():
+            for K in m.classes.values():
+                node = K.node
+                for d in node.decorator_list:
+                    name = ast.unparse(d.func if isinstance(d, ast.Call) else d)
+                    if name not in self.HARMLESS_CLASS_DECORATORS:
+                        poison(K, f"class decorator @{name} at {m.path}:{node.lineno} may rewrite the class")
+                for kw in node.keywords:
+                    if kw.arg == "metaclass" and ast.unparse(kw.value) not in ("abc.ABCMeta", "ABCMeta", "type"):
+                        poison(K, f"metaclass {ast.unparse(kw.value)} at {m.path}:{node.lineno}")
+                for special in ("__getattribute__", "__setattr__", "__delattr__", "__new__"):
+                    if special in K.methods and K.record_fields is None:
+                        poison(K, f"{K.name}.{special} at {m.path}:{K.methods[special].lineno} changes what attribute access / "
+                                  f"instance creation means")
+                for mname, fn in K.methods.items():
+                    if not fn.args.args or mname in ("__getstate__", "__setstate__", "__deepcopy__", "__copy__", "__reduce__",
+                                                     "__reduce_ex__"):
+                        continue
+                    me = fn.args.args[0].arg
+                    for n in ast.walk(fn):
+                        if isinstance(n, ast.Attribute) and isinstance(n.value, ast.Name) and n.value.id == me and \
+                                n.attr in ("__class__", "__dict__") and isinstance(n.ctx, ast.Store):
+                            poison(K, f"{K.name}.{mname} assigns self.{n.attr} at {m.path}:{n.lineno}")
+                        if isinstance(n, ast.Call) and isinstance(n.func, ast.Attribute) and n.func.attr in ("update", "clear", "pop", "setdefault") and \
+                                ast.unparse(n.func.value) in (f"{me}.__dict__", f"vars({me})"):
+                            poison(K, f"{K.name}.{mname} rewrites the instance dict at {m.path}:{n.lineno}")
+                        if isinstance(n, ast.Subscript) and isinstance(n.ctx, (ast.Store, ast.Del)) and \
+                                ast.unparse(n.value) in (f"{me}.__dict__", f"vars({me})"):
+                            poison(K, f"{K.name}.{mname} writes the instance dict at {m.path}:{n.lineno}")
+            # methods patched onto a package class from outside its body
+            for n in ast.walk(m.tree):
+                target = None
+                if isinstance(n, ast.Assign) and len(n.targets) == 1 and isinstance(n.targets[0], ast.Attribute) and \
+                        isinstance(n.targets[0].value, ast.Name):
+                    target = n.targets[0].value.id
+                elif isinstance(n, ast.Call) and isinstance(n.func, ast.Name) and n.func.id == "setattr" and n.args and \
+                        isinstance(n.args[0], ast.Name):
+                    target = n.args[0].id
+                if isinstance(n, ast.Call) and isinstance(n.func, ast.Name) and n.func.id in ("exec", "eval") and \
+                        self.resolve_name(m, n.func.id) is None:
+                    for K in m.classes.values():
+                        poison(K, f"{n.func.id}() at {m.path}:{n.lineno}")
+                if target is None:
+                    continue
+                r = self.resolve_name(m, target)
+                if r and r[0] == "class":
+                    poison(r[1], f"attribute of {r[1].name} assigned from outside the class body at {m.path}:{n.lineno}")
 
     def _base_name(self, m, b):
         d = self.dotted_of(m, b)
